@@ -160,6 +160,24 @@ def rt_wrapper(seed, n):
         ok = all(abs(res.V[s] - res._valuevec[i]) < 1e-12 for i, s in enumerate(sl)) and all(abs(res.Q[s][a] - res._qvaluemat[i, j]) < 1e-12 for i, s in enumerate(sl) for j, a in enumerate(al))
         ok = ok and all(abs(res.policy[s][a] - np.asarray(res.policy)[i, j]) < 1e-12 for i, s in enumerate(sl) for j, a in enumerate(al))
         out.append(dict(name='rt:plan_on:tables-transcribe-the-arrays-under-the-state/action-lists', ok=bool(ok), witness=dict(gamma=g)))
+        # a planner OBJECT reused on a second model with OTHER state-dependent action sets must plan like a fresh one (nothing model-specific may stick to it)
+        acts_a = {0: ('l', 'r'), 1: ('l',), 2: ('l', 'r')}
+        acts_b = {0: ('r',), 1: ('l', 'r'), 2: ('l', 'r')}
+        def mk_model(acts_):
+            return QuickTabularMDP(next_state_dist=lambda s, a: DictDistribution(T[(s, a)]), reward=lambda s, a, ns: R.get((s, a, ns), 0.), actions=lambda s: acts_[s],
+                                   initial_state_dist=DictDistribution({0: .5, 1: .5}), is_absorbing=lambda s: False, discount_rate=g)
+        wgt2 = rnd.choice([.3, 1.])
+        with warnings.catch_warnings():
+            warnings.simplefilter('ignore')
+            planner = er.EntropyRegularizedPolicyIteration(entropy_weight=wgt2)
+            planner.plan_on(mk_model(acts_a))
+            r_reused = planner.plan_on(mk_model(acts_b))
+            r_fresh = er.EntropyRegularizedPolicyIteration(entropy_weight=wgt2).plan_on(mk_model(acts_b))
+        same = all(abs(r_reused.V[s_] - r_fresh.V[s_]) < 1e-9 for s_ in r_fresh.V) and all(
+            abs(r_reused.policy[s_][a_] - r_fresh.policy[s_][a_]) < 1e-9 for s_ in r_fresh.V for a_ in ('l', 'r'))
+        legal = all(r_reused.policy[s_][a_] < 1e-9 for s_ in acts_b for a_ in ('l', 'r') if a_ not in acts_b[s_])
+        out.append(dict(name='rt:plan_on:a-planner-object-reused-on-a-model-with-other-action-sets-plans-like-a-fresh-one', ok=bool(same and legal),
+                        witness=dict(gamma=g, weight=wgt2, reused=repr({s_: float(x) for s_, x in r_reused.V.items()}), fresh=repr({s_: float(x) for s_, x in r_fresh.V.items()}))))
         # the wrapper's own convergence flag under small iteration budgets: whenever it REPORTS convergence the tables are the soft Bellman fixed point
         for budget in (1, 2, 3, 5):
             wgt = rnd.choice([.1, 1., 3.])
